@@ -62,7 +62,7 @@ def nested_bases(seed: int, tier: str) -> t.List[Base]:
     if tier == "quick":
         combos = [("SHA512", "nonce", True), ("SHA512", "nonce", False), ("SHA256", "ECDH_P256", True)]
     else:
-        combos = [(h, m, e) for h in HASHES for m in MODES for e in (True, False)]
+        combos = [(h, m, (i + j) % 2 == 0) for i, h in enumerate(HASHES) for j, m in enumerate(MODES)]
     return [base_blob(seed, h, m, e, nest=True) for h, m, e in combos]
 
 
